@@ -1291,7 +1291,8 @@ class PE:
         else:
             is_iter = False
         if not isinstance(a0, Tup) or not (d.startswith("core::slice") or d.startswith("core::iter") or d.startswith("core::array")
-                                           or d.startswith("<") or "IntoIterator" in d or "Iterator" in d or d.startswith("alloc::vec")):
+                                           or d.startswith("<") or "IntoIterator" in d or "Iterator" in d or d.startswith("alloc::vec")
+                                           or (d.startswith("core::ops::index::Index::") and name == "index")):
             return NotImplemented
         items = a0.items
         if name in ("iter", "into_iter", "copied", "cloned", "as_slice", "by_ref") and len(args) == 1:
@@ -1301,6 +1302,14 @@ class PE:
         if name == "push" and len(args) == 2 and not is_iter and d.startswith("alloc::vec"):
             a0.items.append(args[1])
             return UNIT
+        if name == "index" and len(args) == 2 and not is_iter and isinstance(args[1], Adt) and args[1].adt.startswith("core::ops::range::") \
+                and args[1].variant in ("Range", "RangeFrom", "RangeTo", "RangeFull"):
+            lo, hi = args[1].fields.get("start", 0), args[1].fields.get("end", len(items))
+            if isinstance(lo, int) and isinstance(hi, int) and not isinstance(lo, bool) and not isinstance(hi, bool):
+                if not (0 <= lo <= hi <= len(items)):
+                    self.events.append(("panic", "range %d..%d out of bounds (len %d)" % (lo, hi, len(items))))
+                    raise Undecided("panic reached")
+                return a0 if (lo, hi) == (0, len(items)) else Tup(items[lo:hi])      # a shared view: never written through
         if name == "get" and len(args) == 2 and isinstance(args[1], int) and not is_iter:
             return some(items[args[1]]) if 0 <= args[1] < len(items) else NONE
         if name in ("first", "last") and len(args) == 1 and not is_iter:
@@ -1487,6 +1496,18 @@ class PE:
             if len(args) == 1 and f[1] in ("core::option::Option::Some", "core::result::Result::Ok", "core::result::Result::Err"):
                 return {"Some": some, "Ok": ok, "Err": err}[f[1].rsplit("::", 1)[1]](args[0])
             if f[1] in self.F.fns:
+                if self.call_hook is not None:
+                    # a function of the crate used as a value (`.and_then(TopicName::try_from)`): the rule's model of it applies
+                    # exactly as for a direct call
+                    rec_ = f[2] if len(f) > 2 and isinstance(f[2], dict) else {}
+                    fnrec = dict(rec_)
+                    fnrec.setdefault("def", f[1])
+                    fnrec["res"] = f[1]
+                    fnrec.setdefault("name", f[1].rsplit("::", 1)[-1])
+                    node = {"k": "Call", "fn": fnrec, "args": [{"k": "__val", "v": a} for a in args], "ty": fnrec.get("sig_out")}
+                    h = self.call_hook(fnrec["def"], f[1], [a.get() if isinstance(a, Ref) else a for a in args], node, {})
+                    if h is not None:
+                        return h
                 return self.call_fn(f[1], args)
             rec = f[2] if len(f) > 2 and isinstance(f[2], dict) else {}
             fd = rec.get("def") or f[1]
